@@ -600,6 +600,54 @@ def command_probes(out, prop, label='probe', names=None):
     cmd.run(prop, label, out)
 
 
+def source_gaps(wl):
+    """Gaps of the water-level record AS WRITTEN to the input file: pairs (last reading before, first reading after)
+    of consecutive readings further apart than the record's own sampling interval (its smallest spacing)."""
+    ts = sorted({int(t) for t, _ in wl})
+    if len(ts) < 2:
+        return []
+    m = min(b - a for a, b in zip(ts, ts[1:]))
+    return [(a, b) for a, b in zip(ts, ts[1:]) if b - a > m]
+
+
+def oracle_source_gaps(ds, step, storms, zi, out):
+    """C03, last clause of the first sentence, evaluated against the input file rather than against the labels `load`
+    stored: no recorded storm has a time step starting strictly inside a gap of the water-level record or steps on
+    both sides of one; no recorded rise has a sample strictly inside a gap or samples on both sides of one."""
+    gaps, probs = source_gaps(ds.wl), []
+    if not gaps:
+        return probs
+    out.count('source-gaps-checked', len(gaps))
+    g0 = ds.rain[0][0]
+    if any((lo - g0) % step for lo, _ in gaps):
+        out.count('source-gap-opens-at-a-reading-off-the-rainfall-grid')
+    if any((hi - g0) % step for _, hi in gaps):
+        out.count('source-gap-closes-at-a-reading-off-the-rainfall-grid')
+    for lo, hi in gaps:
+        for a, b in sorted(storms.items()):
+            if a < hi and b - step > lo:
+                probs.append('storm [%s, %s) has steps starting at %s..%s, inside or across the gap (%s, %s) between two '
+                             'consecutive water-level readings of the input file' % (a, b, a, b - step, lo, hi))
+            elif b - step <= lo < b:
+                out.count('storm-closing-at-the-last-grid-instant-before-a-source-gap')
+        for a, (ty, b) in sorted(zi.items()):
+            if ty == 'storm' and a < hi and b > lo:
+                probs.append('rise [%s, %s] has samples inside or across the gap (%s, %s) between two consecutive '
+                             'water-level readings of the input file' % (a, b, lo, hi))
+            elif ty == 'storm' and lo - step < b <= lo:
+                out.count('rise-ending-at-the-last-grid-instant-before-a-source-gap')
+            elif ty == 'storm' and hi <= a < hi + step:
+                out.count('rise-starting-at-the-first-grid-instant-after-a-source-gap')
+    return probs
+
+
+def count_foot(recs, out):
+    """What the 'foot' records (G.gen_foot_record) exercise."""
+    for rec in recs:
+        out.count('foot:threshold-x-step-has-%d-roundings' % rec.get('products', 0))
+        out.count('foot:boundary-increments-realised-exactly', rec.get('edge_exact', 0))
+
+
 def check_cl(recs, out, keep, prop, label):
     batch = MSBatch()
     cmd = CommandBatch()
@@ -610,6 +658,8 @@ def check_cl(recs, out, keep, prop, label):
         out.count('CL:' + rec['cls'])
         if rec.get('fine', 1) > 1:
             out.count('CL-fine-water-level(x%d)%s' % (rec['fine'], '+island' if rec.get('island') else ''))
+            if rec.get('run_in'):
+                out.count('CL-fine:heavy-rain-and-rise-run-into-and-out-of-an-outage', rec['run_in'])
         d = D.scratch(prop, 'cl_db')
         ds = G.to_dataset(rec)
         case = dict(level='CL', rec=rec)
@@ -676,6 +726,9 @@ def check_cl(recs, out, keep, prop, label):
                                         for a, b, v in rainrows])
                         depth_cases.append('(%s, %s, %s, %s)' % (C.cZ(sstart), C.cZ(storms[sstart]), rows, C.cQ(got)))
                         depth_meta.append(case)
+        if 'C03' in keep:
+            for msg in oracle_source_gaps(ds, step, storms, zi, out):
+                out.violation('oracle', msg, case=case)
         stray = [s for s in storms if s not in used_storms]
         if stray and 'C03' in keep:
             out.violation('oracle', 'storm rows %s start outside every gap-free stretch or are not paired' % stray, case=case)
